@@ -100,6 +100,9 @@ func leaves(o interface{}, s *spec) []leaf {
 func hexv(b []byte) string { return vh.Hex(b) }
 
 func valueText(v value.Value) string {
+	if v == nil {
+		return "Z" // a nil value inside a map
+	}
 	switch x := v.(type) {
 	case *value.NullValue:
 		return "N"
@@ -135,6 +138,8 @@ func parseValue(s string) value.Value {
 	i64 := func() int64 { n, _ := strconv.ParseInt(p, 10, 64); return n }
 	u64 := func() uint64 { n, _ := strconv.ParseUint(p, 10, 64); return n }
 	switch s[0] {
+	case 'Z':
+		return nil
 	case 'N':
 		return value.NewNullValue()
 	case 'B':
